@@ -196,6 +196,18 @@ func elems(v vals.V) []vals.V {
 		}
 		return out
 	}
+	if _, n, ok := wideKind(v.K); ok {
+		// sized predeclared integer element types: S is the exact decimal text of the item; an
+		// array holds zeros where the description is shorter
+		out := typed("wnum")
+		for n > 0 && len(out) < n {
+			out = append(out, vals.V{K: "wnum", S: "0"})
+		}
+		if n > 0 {
+			out = out[:n]
+		}
+		return out
+	}
 	switch v.K {
 	case "[]any":
 		return v.L
@@ -274,6 +286,9 @@ func elems(v vals.V) []vals.V {
 }
 
 func isSeq(k string) bool {
+	if _, _, ok := wideKind(k); ok {
+		return true
+	}
 	switch k {
 	case "[]any", "[]string", "[]int", "[]float64", "[]bool", "[3]int", "[]map", "[]rec", "[]*rec", "nil[]any", "[]emb", "[]pemb", "[]*emb", "[]qty", "[2]ratio", "[]dur", "[]flag", "[]name", "[]*task", "[2]*task", "[]task":
 		return true
@@ -283,7 +298,7 @@ func isSeq(k string) bool {
 
 func isScalar(k string) bool {
 	switch k {
-	case "string", "int", "float64", "bool", "qty", "ratio", "dur", "flag", "name":
+	case "string", "int", "float64", "bool", "qty", "ratio", "dur", "flag", "name", "wnum":
 		return true
 	}
 	return false
@@ -307,13 +322,45 @@ func display(v vals.V) (string, bool) {
 // truthiness applies (zero of any numeric type is falsy); comparing them with literals is a
 // cross-type comparison and not generated.
 func truthOnly(k string) bool {
-	return k == "qty" || k == "ratio" || k == "dur" || k == "flag" || k == "name"
+	return k == "qty" || k == "ratio" || k == "dur" || k == "flag" || k == "name" || k == "wnum"
+}
+
+// wideKind: collection kinds whose element type is a sized predeclared integer ("[]uint64",
+// "[2]uint64", "[]int8", ...): element type, array length (0 = slice). Their items ("wnum") carry the
+// exact decimal text - the extremes of the width do not survive a detour through int or float64, so
+// like the named numeric types they are printed, bound and tested for truthiness, never compared.
+func wideKind(k string) (elem string, n int, ok bool) {
+	switch {
+	case strings.HasPrefix(k, "[]"):
+		elem = k[2:]
+	case strings.HasPrefix(k, "[2]"):
+		elem, n = k[3:], 2
+	default:
+		return "", 0, false
+	}
+	_, ok = wideVals[elem]
+	return elem, n, ok
+}
+
+// wideVals: per element type zero first, then the extremes of the width and values beyond 2^53 / 2^63.
+var wideVals = map[string][]string{
+	"uint64": {"0", "18446744073709551615", "9223372036854775808", "9007199254740993", "9223372036854775807", "1"},
+	"uint":   {"0", "9223372036854775808", "18446744073709551615", "18446744073709551614", "4294967296", "7"},
+	"int64":  {"0", "-9223372036854775808", "9223372036854775807", "-9007199254740993", "9007199254740993", "-1"},
+	"int32":  {"0", "-2147483648", "2147483647", "-1"},
+	"uint32": {"0", "4294967295", "2147483648", "1"},
+	"int16":  {"0", "-32768", "32767", "-1"},
+	"uint16": {"0", "65535", "32768", "1"},
+	"int8":   {"0", "-128", "127", "-1"},
+	"uint8":  {"0", "255", "128", "1"},
 }
 
 func truthy(v vals.V) bool {
 	switch v.K {
 	case "qty", "ratio":
 		return num(v) != 0
+	case "wnum":
+		return v.S != "0"
 	case "dur":
 		return v.S != "0s"
 	case "flag":
